@@ -24,7 +24,8 @@ MODULES = ["TypelibModel.Props.C08", "TypelibModel.Props.Dispatch"]
 TABLES = True
 RULE = ("ordered member tuples of length 2-4 (permutations, None at every position, Union / Optional / X|Y spellings) over a pool of "
         "12 member types incl. int, str, float, Decimal, date, datetime, UUID, list[int], dict[str,int], a dataclass, an Enum, a "
-        "Literal; inputs from the C03 junk pool plus valid values of each member; one union per forked child")
+        "Literal; inputs from the C03 junk pool plus valid values of each member plus boundary numbers (inf, nan, Decimal Infinity, "
+        "10**400, undecodable bytes) that members reject with exceptions other than ValueError/TypeError; one union per forked child")
 ASSUMPTIONS = ["a member 'accepts' x when its own routine, obtained independently, returns without raising"]
 TRUSTED = ["harness encoders/generators", "hand-written model tied by correspondence"]
 
@@ -42,7 +43,10 @@ POOL = [["int"], ["str"], ["float"], ["decimal"], ["date"], ["datetime"], ["uuid
 INPUTS = [None, 0, 5, True, ["f", "1.5"], "5", "abc", "1.5", "null", "2020-01-02", "2020-01-02T03:04:05+00:00", "g", "a", 1,
           "00000000-0000-0000-0000-000000000005", ["l", [1, 2]], ["l", ["1", "x"]], "[1, 2]", ["d", [["a", 1]]], '{"x": 1, "y": 2}',
           ["d", [["x", "1"], ["y", 2]]], ["o", 1, [["x", 1], ["y", 2]]], ["m", 0, 0], ["dec", "2.5"], ["date", 737426],
-          ["dt", 1577934245000006, 0], ["uuid", 7], ["b", "bytes", "7"], ["x", "opaque"], ["l", []], ["d", []], "", ["t", [1, 2]]]
+          ["dt", 1577934245000006, 0], ["uuid", 7], ["b", "bytes", "7"], ["x", "opaque"], ["l", []], ["d", []], "", ["t", [1, 2]],
+          # boundary numbers: members reject them with other exception classes (OverflowError, InvalidOperation, ...)
+          ["f", "inf"], ["f", "-inf"], ["f", "nan"], ["dec", "Infinity"], ["dec", "NaN"], 10 ** 400, -(10 ** 400), "inf", "1e999",
+          ["b", "bytes", "\u00ff\u00fe"], ["l", [["f", "inf"]]], ["d", [["x", ["f", "inf"]], ["y", 1]]]]
 
 
 def explore(ctx):
@@ -63,7 +67,7 @@ def explore(ctx):
         else:
             sp = r.choice(["typing", "pipe"])
         ts = ["union", ms, {"sp": sp}]
-        ops = [{"op": "union", "ty": ts, "val": x, "members": ms} for x in r.sample(INPUTS, 8)]
+        ops = [{"op": "union", "ty": ts, "val": x, "members": ms} for x in r.sample(INPUTS, 10)]
         jobs.append({"prog": POOL_PROG, "ops": ops})
     real, model = core.run_jobs(jobs)
     res.programs = len(jobs)
@@ -72,7 +76,11 @@ def explore(ctx):
         case = {"ann": enc.pyexpr(op["ty"], job["prog"]), "input": op["val"]}
         res.case(case, True)
         inp = {"prog": job["prog"], "ty": op["ty"], "val": op["val"], "members": ms, **case}
-        core.compare(res, "um", inp, r_["union"], m_)
+        if _nonfinite(op["val"]) or _nonfinite(r_["union"].get("ok")):
+            # non-finite floats are outside U (the model has no inf / nan); the member-by-member oracle below still judges them
+            res.count("um:correspondence-skipped-nonfinite")
+        else:
+            core.compare(res, "um", inp, r_["union"], m_)
         # ---- oracle: first acceptor in declaration order, None honoured
         has_none = any(m == ["none"] for m in ms)
         if has_none and op["val"] is None:
@@ -100,6 +108,11 @@ def explore(ctx):
         else:
             res.count("oracle:mar-first-acceptor")
     return res
+
+
+def _nonfinite(v):
+    t = json.dumps(v)
+    return any(k in t for k in ('"inf"', '"-inf"', '"nan"', "nonfinite-float", '"Infinity"', '"NaN"', '"-Infinity"'))
 
 
 def _b(o):
